@@ -92,6 +92,10 @@ def blocks(tier, seed):
         out.append({"kind": "cyl", "grid": {"kind": "cyl", "shape": [5, 9], "R": 4.0, "z": [-3.0, 6.0], "periodic_z": pz}, "phase": ph})
         out.append({"kind": "cyl", "grid": {"kind": "cyl", "shape": [4, 8], "R": 2.0, "z": [0.0, 6.4], "periodic_z": pz}, "phase": ph})
     out.append({"kind": "sum", "phase": ph})
+    # grids with many cells (beyond any chunk / block size: 4096 < cells, not a multiple of a power of two), droplets reaching the last cells
+    for shape in ((72, 72), (90, 50), (64, 65), (18, 18, 19), (130, 33)):
+        for mask in ((False,) * len(shape), (True,) * len(shape)):
+            out.append({"kind": "large", "shape": list(shape), "mask": list(mask), "phase": ph})
     out.append({"kind": "dim-mismatch"})
     # histories: droplets rendered one after the other on grids that differ in exactly one attribute, in every order, fresh process each
     for fam in ("cart", "cyl", "polar", "sph"):
@@ -264,6 +268,36 @@ def cases(block):
         for n in (2, 3):
             for sub in itertools.combinations(range(3), n):
                 yield {"kind": "sum", "grid": g, "drops": [pool[i] for i in sub]}
+        # cylindrical boxes whose z range lies far away from 0 (a Cartesian component of the position is not a grid coordinate)
+        for z0 in (10.0, -30.0):
+            g = {"kind": "cyl", "shape": [5, 9], "R": 4.0, "z": [z0, z0 + 9.0], "periodic_z": False}
+            pool = [{"cls": "SphericalDroplet", "centre": [0, 0, z0 + 3.2 + ph], "R": 1.8}, {"cls": "DiffuseDroplet", "centre": [0, 0, z0 + 4.9 + ph], "R": 1.5, "width": 0.6},
+                    {"cls": "PerturbedDroplet3DAxisSym", "centre": [0, 0, z0 + 6.0 + ph], "R": 1.6, "width": 0.5, "amps": [0.1, 0.2]}, {"cls": "DiffuseDroplet", "centre": [0, 0, z0 + 7.5 + ph], "R": 1.2, "width": 0.0}]
+            for n in (1, 2, 3):
+                for sub in itertools.permutations(range(4), n):
+                    yield {"kind": "sum", "grid": g, "drops": [pool[i] for i in sub]}
+    elif k == "large":
+        shape = block["shape"]
+        dim = len(shape)
+        g = cart(shape, block["mask"], [1.0] * dim, [0.0] * dim)
+        R = 6.3 if dim == 2 else 4.2
+        cents = [("generic", [n // 2 + 0.31 + ph for n in shape]), ("near-high-boundary", [n - R - 1.2 + ph for n in shape]), ("near-low-boundary", [R + 1.3 + ph] * dim)]
+        if block["mask"][0]:
+            cents.append(("across-high-boundary", [n - 0.4 * R + ph for n in shape]))
+        for label, c in cents:
+            for cls, amps in ((("PerturbedDroplet2D", [0.15, -0.1]), ("PerturbedDroplet2D", [0.0, 0.0, 0.2, 0.1]), ("DiffuseDroplet", None), ("SphericalDroplet", None)) if dim == 2 else
+                              (("PerturbedDroplet3D", [0.0, 0.2, 0.0, 0.1]), ("PerturbedDroplet3DAxisSym", [0.1, 0.2]), ("DiffuseDroplet", None))):
+                if cls == "PerturbedDroplet3DAxisSym":
+                    c = [0.0, 0.0, c[2]] if not block["mask"][0] else c
+                    if block["mask"][0]:
+                        continue
+                for w in (0.0, 0.9):
+                    spec = {"cls": cls, "grid": g, "centre": c, "R": R, "width": w if cls != "SphericalDroplet" else None, "levels": LEVELS[1] if w else LEVELS[0], "label": label, "large": True}
+                    if amps is not None:
+                        spec["amps"] = amps
+                    if cls == "SphericalDroplet" and w:
+                        continue
+                    yield spec
     elif k == "dim-mismatch":
         grids = {1: cart((8,), (True,), [1.0], [0.0]), 2: cart((7, 6), (True, False), [1.0, 1.0], [0.0, 0.0]), 3: cart((5, 6, 4), (False, False, True), [1.0] * 3, [0.0] * 3),
                  "polar": {"kind": "polar", "n": 9, "R": 4.5}, "sph": {"kind": "sph", "n": 9, "R": 4.5}, "cyl": {"kind": "cyl", "shape": [5, 9], "R": 4.0, "z": [-3.0, 6.0], "periodic_z": False}}
